@@ -278,7 +278,7 @@ class C13(BaseCheck):
         if roll < 0.12:
             return self._gen_history(run_seed, k, r, tier)
         cls = 'threads' if roll < 0.9 else 'threads-fault'
-        nrows = 8
+        nrows = k.choice([8, 8, 8, 8, 21])
         spec = {'nrows': nrows, 'tags': {}, 'refs': {}}
         for t in range(6):
             members = [j for j in range(nrows) if k.random() < 0.5]
